@@ -75,6 +75,11 @@ def gen(cls, idx, rng, tier):
             allocs[v] = (a, min(18, a + rng.choice([1, 1, 1, 2, 3, 0])))
         elif k < .7:
             endpoints.append(("endpoint", v, rng.randrange(6)))
+            if rng.random() < .4:
+                # a device vertex that was also given (possibly zero) cores:
+                # the endpoint constraint still decides where packets go
+                a = rng.randrange(18)
+                allocs[v] = (a, min(18, a + rng.choice([0, 1, 2])))
     nets = []
     for _ in range(rng.randint(1, 3)):
         fan = rng.randint(1, 8) if cls != "fanout" else rng.randint(10, 60)
